@@ -236,8 +236,8 @@ def directed_limits(variant):
 
 def run(c):
     quick = c.tier == "quick"
-    n_asan = int((160 if quick else 8000) * c.scale)
-    n_rel = int((80 if quick else 2000) * c.scale)
+    n_asan = int((160 if quick else 2400) * c.scale)
+    n_rel = int((80 if quick else 800) * c.scale)
     B.build([("rel", "texel"), ("asan", "texel")])
     core.ensure_nets(NETS)
     jobs = [("asan", c.seed * 1000000 + i) for i in range(n_asan)] + [("rel", c.seed * 1000000 + 500000 + i) for i in range(n_rel)]
@@ -280,7 +280,7 @@ def run(c):
     # scheduled in-process sessions (delays relative to search progress are literal scheduler steps; hangs are logical verdicts)
     B.build([("rel", "h_cos")])
     core.ensure_nets(["zero_1"])
-    nsched = int((160 if quick else 6000) * c.scale)
+    nsched = int((160 if quick else 2400) * c.scale)
     sched_lines = 0
     with concurrent.futures.ThreadPoolExecutor(max_workers=core.NCPU) as ex:
         for r in ex.map(scheduled_one, [(i, c.seed * 1000000 + 700000 + i) for i in range(nsched)]):
